@@ -9,53 +9,26 @@ Theorem datagram_le_max :
 Proof. exact datagram_le_max_all. Qed.
 Print Assumptions datagram_le_max.
 
-(* bytes of one builder <= max_total_bytes, for caller-disciplined histories that complete no one-byte-payload packet *)
+(* bytes of one builder <= max_total_bytes, for every caller-disciplined history (strict since fix e93c691: start_frame
+   reserves room for the header-protection sample padding of a one-byte packet) *)
 Theorem total_le_budget :
   forall (c : cfg) (mt pn : Z) (ops : list op),
-    c_max_total c = Some mt -> wf_cfg c ->
-    disciplined c (init_st c pn) ops = true -> nosample c (init_st c pn) ops = true ->
+    c_max_total c = Some mt -> wf_cfg c -> crypto_fits c ->
+    disciplined c (init_st c pn) ops = true ->
     zsum (snd (run c (init_st c pn) ops)) <= Z.max 0 mt.
-Proof. exact total_le_budget_nosample. Qed.
+Proof. exact total_le_budget_strict. Qed.
 Print Assumptions total_le_budget.
 
-(* in general the header-protection sample padding can exceed the budget by one byte, never more *)
-Theorem total_le_budget_plus1 :
-  forall (c : cfg) (mt pn : Z) (ops : list op),
-    c_max_total c = Some mt -> wf_cfg c ->
-    disciplined c (init_st c pn) ops = true ->
-    zsum (snd (run c (init_st c pn) ops)) <= Z.max 0 (mt + 1).
-Proof. exact total_le_budget_slack. Qed.
-Print Assumptions total_le_budget_plus1.
-
-Theorem total_le_budget_strict_refuted :
-  exists (c : cfg) (mt : Z) (ops : list op),
-    c_max_total c = Some mt /\ wf_cfg c /\ c_mds c = 1200 /\ disciplined c (init_st c 0) ops = true /\
-    zsum (snd (run c (init_st c 0) ops)) = mt + 1.
-Proof. exact total_le_budget_refuted. Qed.
-Print Assumptions total_le_budget_strict_refuted.
-
-(* while a path is unvalidated: sent <= 3 * received, invariant over all receive / send / terminate histories *)
+(* while a path is unvalidated: sent <= 3 * received, invariant over all receive / send / terminate histories
+   whose send rounds go through the budgeted branch of datagrams_to_send *)
 Theorem amplification_bound :
   forall (a : acfg) (l : list aop) (s : ast),
-    wf_acfg a -> Forall (P 0) (as_paths s) -> aok a s l = true -> anosample a s l = true -> no_close l = true ->
-    Forall (P 0) (as_paths (arun a s l)).
-Proof. exact amplification_bound_nosample. Qed.
+    wf_acfg a -> Forall P (as_paths s) -> aok a s l = true -> no_close l = true ->
+    Forall P (as_paths (arun a s l)).
+Proof. exact amplification_bound_strict. Qed.
 Print Assumptions amplification_bound.
 
-Theorem amplification_bound_plus1 :
-  forall (a : acfg) (l : list aop) (s : ast),
-    wf_acfg a -> Forall (P 1) (as_paths s) -> aok a s l = true -> no_close l = true ->
-    Forall (P 1) (as_paths (arun a s l)).
-Proof. exact amplification_bound_slack. Qed.
-Print Assumptions amplification_bound_plus1.
-
-Theorem amplification_bound_strict_refuted :
-  exists (a : acfg) (l : list aop),
-    wf_acfg a /\ aok a (mkAst [] false) l = true /\ no_close l = true /\
-    as_paths (arun a (mkAst [] false) l) = [mkPath 1 1200 3601 false].
-Proof. exact amplification_bound_refuted. Qed.
-Print Assumptions amplification_bound_strict_refuted.
-
+(* the _close_pending round is unbudgeted (open finding C13-F13c) *)
 Theorem amplification_bound_close_refuted :
   exists (a : acfg) (l : list aop),
     wf_acfg a /\ aok a (mkAst [] false) l = true /\
